@@ -15,6 +15,15 @@ CLAIMS = {
     'C09': ('5.9', ARG, 'action property ExecOnlyAtDispatch and invariant ExecSafety on the model with single faults at every position; real Execute / CommandHandler call log compared by TLC on enumerated and random scenarios'),
     'C10': ('5.10', ARG, 'invariant Conservation (positional part: binding order, conversion, trailing slice) exhaustively over interleavings of plain tokens, options and the terminator; real positional fields compared by TLC'),
 }
+SES = 'TLA+ specifications spec/Ini.tla (INI reader automaton, section/name resolution, application, writer) and spec/ArgParse.tla, TLC'
+CLAIMS.update({
+    'C05': ('5.5', SES, 'invariant Precedence of MC_Sources (operational Set/setDefault/clearDefault/IniParser.parse protocol against the declarative ranking cli > ini > ini-as-defaults > env > default > preset, replace-never-extend) exhaustively over every subset of sources for every option of the sources declaration; every enumerated history replayed as real API calls; random histories (INI reads in both modes before/after ParseArgs, environment, defaults, presets) validated call by call against the specification'),
+    'C12': ('5.12', SES, 'invariant TripInvariant of MC_Ini (Read(Write(values)) = values on the specification for a value alphabet of blanks, quotes, control, non-ASCII and invalid bytes, numeric limits, slices, maps, pointers, all eight IniOptions); every enumerated case and seeded random declarations with preset values are round-tripped on the real code (parser A: presets, parse, write; parser B: read, parse) and TLC compares the values'),
+    'C13': ('5.13', SES, 'invariant EquivInvariant of MC_Ini (an entry in every naming form and section spelling stores what the flag stores, repeated entries like repeated flags, both reading modes) exhaustively on catalogue declarations; every case replayed on the real code as INI read and as command line; random INI texts addressing random declarations validated against the specification'),
+    'C14': ('5.14', SES, 'invariant ReadInvariants of MC_Ini (typed located errors, noise and CRLF invariance, first syntactic fault always reported) over all files up to the bound over line shapes derived from each declaration; every file replayed on the real reader; random structured texts with noise, single faults, long lines and arbitrary bytes validated (no panic, error kind, line number, values)'),
+    'C15': ('5.15', SES, 'TLC enumerates small INI files on the specification with sections applied in every order and selects those whose outcome depends on the order; the real code is run 200 (quick) / 2000 (thorough) times on each selected file and on seeded random sessions (reads, writes with multi-entry maps) and every repetition must give the identical observation'),
+    'C20': ('5.20', 'TLA+ specification spec/Closest.tla (row-wise Levenshtein over characters, suggestion rule), TLC', 'invariants Metric (symmetry, identity, triangle inequality, agreement with a brute-force definition) and Diagnosis of MC_Closest exhaustively over short strings; every enumerated (word, names) case and seeded random command sets are run through the real ParseArgs and TLC checks the message against the set of allowed outcomes'),
+})
 NA = {
     'C05': 'not built yet in this round: value-source protocol model (Sources.tla) is next',
     'C11': 'not built yet in this round (Conv.tla exists; dedicated bounds pending)',
